@@ -215,7 +215,7 @@ func (ex *Exec) doCall(fr *Frame, call *ssa.Call, st *State) []Result {
 		return ex.callFunction(fr, f.Fn, args, f.Bindings, st, call)
 	}
 	ex.warn("call of unknown function value in %s: results unconstrained, state kept", fr.fn.Name())
-	return []Result{{st, ex.freshResults(st, c.Signature()), nil}}
+	return []Result{{st: st, ret: ex.freshResults(st, c.Signature())}}
 }
 
 func (ex *Exec) freshResults(st *State, sig *types.Signature) Val {
@@ -240,7 +240,7 @@ func (ex *Exec) callBuiltinClosure(f *FuncV, args []Val, st *State) []Result {
 		w := *st.worlds[child.World]
 		st.worlds[parent.World] = &w
 		ex.recordMerge(child.World, parent.World)
-		return []Result{{st, nil, nil}}
+		return []Result{{st: st, ret: nil}}
 	}
 	if strings.HasPrefix(f.Builtin, "param:") {
 		var ts []*Term
@@ -250,15 +250,15 @@ func (ex *Exec) callBuiltinClosure(f *FuncV, args []Val, st *State) []Result {
 		rs := ex.externalUF("fp_"+strings.TrimPrefix(f.Builtin, "param:"), f.Sig, nil, ts)
 		switch len(rs) {
 		case 0:
-			return []Result{{st, nil, nil}}
+			return []Result{{st: st, ret: nil}}
 		case 1:
-			return []Result{{st, rs[0], nil}}
+			return []Result{{st: st, ret: rs[0]}}
 		}
 		tv := &TupleV{}
 		for _, r := range rs {
 			tv.Elems = append(tv.Elems, r)
 		}
-		return []Result{{st, tv, nil}}
+		return []Result{{st: st, ret: tv}}
 	}
 	panic("unknown builtin closure " + f.Builtin)
 }
@@ -363,12 +363,12 @@ func (ex *Exec) callFunction(fr *Frame, fn *ssa.Function, args []Val, bindings [
 	}
 	if len(ex.callStack) > ex.inlineMax {
 		ex.unsupp("inline depth exceeded at %s", fn.Name())
-		return []Result{{st, ex.freshResults(st, fn.Signature), nil}}
+		return []Result{{st: st, ret: ex.freshResults(st, fn.Signature)}}
 	}
 	for _, f := range ex.callStack {
 		if f == fn {
 			ex.unsupp("recursive call of %s", fn.Name())
-			return []Result{{st, ex.freshResults(st, fn.Signature), nil}}
+			return []Result{{st: st, ret: ex.freshResults(st, fn.Signature)}}
 		}
 	}
 	base := len(st.pc)
@@ -642,13 +642,13 @@ func (ex *Exec) mergeResults(base int, rs []Result, sig *types.Signature) []Resu
 			ret = tv
 		}
 	}
-	return []Result{{m, ret, nil}}
+	return []Result{{st: m, ret: ret}}
 }
 
 // ---------------------------------------------------------------- Go builtins
 
 func (ex *Exec) goBuiltin(fr *Frame, name string, args []Val, c *ssa.CallCommon, st *State, call *ssa.Call) []Result {
-	one := func(v Val) []Result { return []Result{{st, v, nil}} }
+	one := func(v Val) []Result { return []Result{{st: st, ret: v}} }
 	switch name {
 	case "len":
 		switch x := args[0].(type) {
